@@ -574,6 +574,12 @@ class List(list, base.Symbolic, pg_typing.CustomTyping):
           self._error_message('Cannot delete List item while accessor_writable '
                               'is set to False. '
                               'Use \'rebind\' method instead.'))
+    if isinstance(index, slice):
+      # Delete from the back so that the remaining indices stay valid.
+      for i in sorted(range(*self._parse_slice(index)), reverse=True):
+        del self[i]
+      return
+
     if not isinstance(index, numbers.Integral):
       raise TypeError(
           f'list index must be an integer. Encountered {index!r}.')
